@@ -185,7 +185,12 @@ def render_xlsx_openpyxl(grid, **kw) -> bytes:
 
 
 # ---- ods ------------------------------------------------------------------------------------------------------------
-def _ods_cell(cell):
+def _ods_cell(cell, comment=None):
+    if comment is not None:
+        # a cell comment: office:annotation is the first child of the cell, its paragraphs are not cell content
+        x = _ods_cell(cell)
+        ann = f'<office:annotation><dc:creator>vf</dc:creator><dc:date>2024-03-01T12:00:00</dc:date><text:p>{escape(comment)}</text:p></office:annotation>'
+        return x[:-2] + ">" + ann + "</table:table-cell>" if x.endswith("/>") else x.replace(">", ">" + ann, 1)
     if cell is None:
         return "<table:table-cell/>"
     t, v = cell["t"], cell["v"]
@@ -228,7 +233,7 @@ def render_ods(grid, *, opts=None, images=None) -> bytes:
             rows.append(f'<table:table-row table:number-rows-repeated="{r0}"><table:table-cell table:number-columns-repeated="{ncols}"/></table:table-row>' if r0 > 1
                         else f'<table:table-row><table:table-cell table:number-columns-repeated="{ncols}"/></table:table-row>')
         body = []
-        for row in sh["rows"]:
+        for ri, row in enumerate(sh["rows"]):
             cells = []
             if c0:
                 cells.append(f'<table:table-cell table:number-columns-repeated="{c0}"/>' if c0 > 1 else "<table:table-cell/>")
@@ -243,7 +248,7 @@ def render_ods(grid, *, opts=None, images=None) -> bytes:
                     # equal neighbouring values are stored once with a repeat count, the way LibreOffice writes them
                     cells.append(x.replace("<table:table-cell ", f'<table:table-cell table:number-columns-repeated="{prev_n}" ', 1) if prev_n > 1 else x)
                 prev, prev_n = None, 0
-            for cell in row:
+            for ci, cell in enumerate(row):
                 if cell is None:
                     flush_prev()
                     run += 1
@@ -258,7 +263,7 @@ def render_ods(grid, *, opts=None, images=None) -> bytes:
                         flush_prev()
                         prev, prev_n = cell, 1
                     continue
-                cells.append(_ods_cell(cell))
+                cells.append(_ods_cell(cell, comment=f"ZXC{ri % 100:02d}{ci % 100:02d} note" if opts.get("comments") and (ri + ci) % 2 == 0 else None))
             flush_prev()
             if run:
                 cells.append(f'<table:table-cell table:number-columns-repeated="{run}"/>' if run > 1 else "<table:table-cell/>")
